@@ -5,4 +5,5 @@ cd "$(dirname "$0")"
 export GOFLAGS=-mod=mod GOPROXY=off GOSUMDB=off GOTOOLCHAIN=local
 mkdir -p bin evidence replays
 if [ -d govc ]; then (cd govc && go build -o ../bin/govc .); fi
+if [ -d frame ]; then (cd frame && go build -o ../bin/frame .); fi
 echo setup-ok
